@@ -107,6 +107,23 @@ func (g *Gen) Str(d int) string {
 		func(d int) string { return `(` + g.Str(d) + ` ~> $uppercase())` },
 		func(d int) string { return `(` + g.Str(d) + ` ~> $uppercase() ~> $pad(10))` },
 		func(d int) string { return `(` + g.Str(d) + ` ~> $substringBefore("z"))` },
+		// chains into calls of every arity (0..7 explicit arguments)
+		func(d int) string { return `(` + g.Str(d) + ` ~> $pad(8, "-"))` },
+		func(d int) string { return `(` + g.Str(d) + ` ~> $replace("z", "Z", 1))` },
+		func(d int) string { return `(` + g.Str(d) + ` ~> $substring(0, 3) ~> $replace("t", "T", 1) ~> $pad(6, "."))` },
+		func(d int) string {
+			k := g.R.Range(0, 7)
+			params, args, body := "$a", "", "$a"
+			for i := 0; i < k; i++ {
+				params += fmt.Sprintf(", $p%d", i)
+				if i > 0 {
+					args += ", "
+				}
+				args += fmt.Sprintf(`"%d"`, i)
+				body += fmt.Sprintf(" & $p%d", i)
+			}
+			return `($f := function(` + params + `){` + body + `}; ` + g.Str(d) + ` ~> $f(` + args + `))`
+		},
 		func(d int) string { return `$substringBefore(?, "z")(` + g.Str(d) + `)` },
 		func(d int) string { return `($p := $pad(?, 8, "-"); $p(` + g.Str(d) + `))` },
 		// a built-in's name rebound locally, depending on the input
@@ -221,6 +238,11 @@ func (g *Gen) ArrN(d int) string {
 		func(d int) string { return `$map(` + g.ArrS(d) + `, $length)` },
 		func(d int) string { return `$map(` + g.ArrN(d) + `, $sqrt)` },
 		func(d int) string { return `(` + g.ArrN(d) + `)[$ >= ` + g.pick("1", "2", "n") + `]` },
+		// chained predicates on a path step (keep everything, then drop some)
+		func(d int) string { return g.pick("nums", "page", "items.q", "dupn") + `[$ > -1][$ != ` + g.pick("2", "3", "n") + `]` },
+		func(d int) string { return g.pick("nums", "items.q") + `[true][$ < 10][$ != 3]` },
+		func(d int) string { return `items[q >= 0][p != "x"].q` },
+		func(d int) string { return `$dv.nums[$ >= 0][$ != 2]` },
 		func(d int) string { return `(` + g.ArrN(d) + `).($ * 2)` },
 		func(d int) string { return `items[q > $$.id].q` },
 		func(d int) string { return `$zip(` + g.ArrN(d) + `, ` + g.ArrN(d) + `).$sum($)` },
@@ -242,6 +264,9 @@ func (g *Gen) ArrS(d int) string {
 		func(d int) string { return `$map(` + g.ArrS(d) + `, ($k := n; $substring(?, 0, $k)))` },
 		func(d int) string { return `$distinct(` + g.pick("dups", "$append(dups, s)", "items.p") + `)` },
 		func(d int) string { return `$distinct($append(` + g.ArrS(d) + `, dups))` },
+		func(d int) string { return g.pick("s", "dups", "items.p") + `[$ != ""][$ != ` + g.pick(`"a"`, `"c"`, `$$.s[1]`) + `]` },
+		func(d int) string { return `items[q >= 0][q > $$.id].p` },
+		func(d int) string { return `s[true][$contains("` + g.pick("a", "b", "c") + `") = false]` },
 		func(d int) string { return `$map(` + g.ArrS(d) + `, $pad(?, n + 3, one.k))` },
 		func(d int) string { return `$map(` + g.ArrS(d) + `, function($v,$i){$v & $string($i)})` },
 		func(d int) string { return `$map(` + g.ArrN(d) + `, $string)` },
@@ -355,7 +380,18 @@ func (g *Gen) TransformOutside() string {
 		}
 		arg := g.pick(`$`, `one`, `items`, `nest`)
 		upd := g.pick(`{"x": 1}`, `{"c": "w"}`, `{"r": 0}, "q"`, `{}, "p"`, `{"k": "w"}, ["k"]`)
-		return `($v := ` + g.pick("one", "items", "nest", "items[1]") + `; ` + arg + ` ~> |` + pat + `|` + upd + `|)`
+		pre := ""
+		switch g.R.Intn(6) {
+		case 0: // a function defined outside the pattern hands out the node
+			pre = `$pick := function(){` + sel + `}; `
+			pat = `$pick()`
+		case 1: // ... or takes an argument and ignores it
+			pre = `$pick := function($x){` + sel + `}; `
+			pat = `$pick(` + g.pick("$", "one", `"k"`) + `)`
+		case 2: // a Go extension returns the node it was given
+			pat = `$xid(` + sel + `)`
+		}
+		return `($v := ` + g.pick("one", "items", "nest", "items[1]") + `; ` + pre + arg + ` ~> |` + pat + `|` + upd + `|)`
 	}
 	return g.pick(
 		`$ ~> |$$.one|{"x": 1}|`,
